@@ -56,7 +56,8 @@ type bufCons struct {
 	newInv    int64
 	newRet    int64
 	ops       []*bufOp
-	closeInv  int64 // 0 = never closed by the harness
+	watch     []*bufOp // Diff calls by a second goroutine
+	closeInv  int64    // 0 = never closed by the harness
 	closeRet  int64
 	stopped   bool // stopped after an eviction error
 	users     int
